@@ -33,6 +33,7 @@ const (
 	KParamSource = "paramsource"
 	KMapToTags   = "maptotags"
 	KSubStream   = "substream"
+	KManualSub   = "manualsub" // a hand-written component that collects its in-IPs and feeds them into the SubStream port of a carrier IP itself
 	KConcat      = "concat"
 	KFileComb    = "fcomb"
 	KParamComb   = "pcomb"
